@@ -816,6 +816,20 @@ func (c *SpecCtx) call(e *ast.CallExpr) *Val {
 			return boolV(StrPrefixOf(c.eval(e.Args[0]).T, c.eval(e.Args[1]).T))
 		case "strsuffix":
 			return boolV(StrSuffixOf(c.eval(e.Args[0]).T, c.eval(e.Args[1]).T))
+		case "asptr":
+			// asptr(id, "*pkg.Type"): the object with identity id (e.g. a recorded lastarg / lastret)
+			// read as a pointer of that type
+			v := c.eval(e.Args[0])
+			name := c.strArg(e.Args[1])
+			t := c.namedType(name)
+			if t == nil {
+				c.fail("unknown type %q in asptr", name)
+			}
+			pt, ok := t.Underlying().(*types.Pointer)
+			if !ok || v.K != kScalar || v.T.sort != SInt {
+				c.fail("asptr needs an object identity and a pointer type")
+			}
+			return x.ptrVal(v.T, pt.Elem(), t)
 		case "sinkarg":
 			// sinkarg(i): argument i of the call a sink guard is being checked for (0 = receiver
 			// for methods)
